@@ -48,6 +48,23 @@ class TracingContext(XmlContext):
         self.log.append(["l", qname, [cid_of(c) for c in r]])
         return r
 
+    # methods whose effect on the index an opaque replay (build / find_types only) cannot reproduce
+    def find_type_by_fields(self, field_names):
+        self.log.append(["m", "find_type_by_fields"])
+        return super().find_type_by_fields(field_names)
+
+    def local_names_match(self, names, clazz):
+        self.log.append(["m", "local_names_match"])
+        return super().local_names_match(names, clazz)
+
+    def build_recursive(self, clazz, parent_ns=None):
+        self.log.append(["m", "build_recursive"])
+        return super().build_recursive(clazz, parent_ns)
+
+    def reset(self):
+        self.log.append(["m", "reset"])
+        return super().reset()
+
 
 CID = {}        # class object -> cid
 BY_CID = {}     # cid -> class object
@@ -62,6 +79,8 @@ def cid_of(clazz):
 
 # ------------------------------------------------------------------ class generation
 def annotation(f):
+    if f.get("pytype"):
+        return f["pytype"]
     t = f["type"]
     if t == "str":
         base = "str"
@@ -95,8 +114,16 @@ def class_source(d, names):
         md = {"type": {"attr": "Attribute", "elem": "Element", "wild": "Wildcard"}[f["kind"]]}
         if f["ns"] is not None:
             md["namespace"] = f["ns"]
+        extra = dict(f.get("md") or {})
+        choices = extra.pop("choices", None)
+        md.update(extra)
+        mdsrc = repr(md)
+        if choices:
+            md["type"] = "Elements"
+            ch = ", ".join('{"name": %r, "type": %s}' % (c[0], c[1]) for c in choices)
+            mdsrc = repr(md)[:-1] + ', "choices": (' + ch + ",)}"
         default = "default_factory=list" if f["list"] else "default=None"
-        lines.append(f"    {f['name']}: {annotation(f)} = field({default}, metadata={md!r})")
+        lines.append(f"    {f['name']}: {annotation(f)} = field({default}, metadata={mdsrc})")
         body += 1
     if not body and not meta:
         lines.append("    pass")
@@ -120,7 +147,7 @@ def define(d, mod, names):
 
 def new_module(name):
     mod = types.ModuleType(name)
-    exec("from dataclasses import dataclass, field\nfrom typing import List, Optional\n", mod.__dict__)
+    exec("from dataclasses import dataclass, field\nfrom typing import List, Optional, Union\n", mod.__dict__)
     return mod
 
 
@@ -276,6 +303,17 @@ def run_op(inst, op):
             return {"ok": tree_of_obj(inst.dd.decode(op["data"], clz(op["clazz"])))}
         if k == "jparse":
             return {"ok": tree_of_obj(inst.jp.from_string(json.dumps(op["data"]), clz(op["clazz"])))}
+        if k == "oparse":
+            p = inst.xn if op.get("handler") == "native" else inst.xp
+            return {"ok": ["x:" + repr(p.from_string(op["doc"], clz(op["clazz"]))), []]}
+        if k == "oround":
+            obj = XmlParser(context=XmlContext()).from_string(op["doc"], clz(op["clazz"]))
+            return {"ok": ["x:" + inst.xs.render(obj), []]}
+        if k == "ojparse":
+            return {"ok": ["x:" + repr(inst.jp.from_string(op["doc"], clz(op["clazz"]))), []]}
+        if k == "ojround":
+            obj = JsonParser(context=XmlContext()).from_string(op["doc"], clz(op["clazz"]))
+            return {"ok": ["x:" + inst.js.render(obj), []]}
         if k == "call":
             n, a = op["name"], op["args"]
             c = inst.ctx
@@ -328,8 +366,10 @@ def ambient_desc(clazz, amb_ids):
             "parent": parent, "fields": [f.name for f in dataclasses.fields(clazz)] if ok else [], "ok": ok}
 
 
-def main():
-    inp = json.load(sys.stdin)
+def setup_world(inp, instances=None):
+    """Create the pool module and its static classes, describe the ambient classes,
+    warm every operation up once.  Returns what both runners need."""
+    instances = instances or Instances
     names = {d["cid"]: d["name"] for d in inp["static"] + inp["dynamic"]}
     dyn = {d["cid"]: d for d in inp["dynamic"]}
     # ambient classes first (they exist before the pool module is imported)
@@ -353,12 +393,21 @@ def main():
     # do not move len(sys.modules) in the middle of a sequence
     for op in ops:
         try:
-            run_op(Instances(), op)
+            run_op(instances(), op)
         except KeyError:
             pass  # operations on classes that are defined only at run time
     gc.collect()
     order = [cid_of(c) for c in probe.get_subclasses(object) if probe.is_binding_model(c)]
     modules0 = len(sys.modules)
+    return {"ambient": ambient, "order": order, "modules0": modules0, "pool": pool, "names": names, "dyn": dyn,
+            "probe": probe, "ops": ops}
+
+
+def main():
+    inp = json.load(sys.stdin)
+    wd = setup_world(inp)
+    ambient, order, modules0, pool, names, dyn, probe, ops = (wd[k] for k in (
+        "ambient", "order", "modules0", "pool", "names", "dyn", "probe", "ops"))
 
     runs = []
     fresh = None
@@ -420,4 +469,5 @@ def main():
     json.dump({"ambient": ambient, "order": order, "modules0": modules0, "runs": runs}, sys.stdout)
 
 
-main()
+if __name__ == "__main__":
+    main()
